@@ -23,9 +23,9 @@ func TestVerifC04(t *testing.T) {
 	defer r.Finish()
 	c04ReadFaults(t, r)
 	rr := r.Rand("c04", r.Part)
-	n := r.Pick(300, 20000)
+	n := r.Pick(300, 100000)
 	if r.Part != "det" {
-		n = r.Pick(80, 500)
+		n = r.Pick(80, 2000)
 	}
 	for i := 0; i < n; i++ {
 		id := fmt.Sprintf("flips/%d", i)
